@@ -319,3 +319,89 @@ def selfcheck():
         except RefValueError:
             continue
         raise AssertionError("ref_types accepted " + bad)
+
+
+# ---------------------------------------------------------------------------------------------
+# writers (reference lexical forms for python values; used to build documents independently of the library)
+# ---------------------------------------------------------------------------------------------
+def fmt_offset(minutes, name=None):
+    sign = "-" if minutes < 0 else "+"
+    h, m = divmod(abs(minutes), 60)
+    s = f"{sign}{h}"
+    if m:
+        s += f".{m:02d}"
+    if name:
+        s += ":" + name
+    return "[" + s + "]"
+
+
+def write_datetime_us(us_utc, offset_minutes=0, name=None):
+    """instant (integer microseconds since the epoch, UTC) -> 'YYYYMMDDHHMMSS.XXX[off]' in the given zone, truncating to ms
+    (callers pass ms-aligned instants)"""
+    ms = us_utc // 1000 + offset_minutes * 60000
+    days, rem = divmod(ms, 86400000)
+    y, mo, d = civil_from_days(days)
+    h, rem = divmod(rem, 3600000)
+    mi, rem = divmod(rem, 60000)
+    s, x = divmod(rem, 1000)
+    return f"{y:04d}{mo:02d}{d:02d}{h:02d}{mi:02d}{s:02d}.{x:03d}" + fmt_offset(offset_minutes, name)
+
+
+def write_time_us(us_utc, offset_minutes=0, name=None):
+    ms = (us_utc // 1000 + offset_minutes * 60000) % 86400000
+    h, rem = divmod(ms, 3600000)
+    mi, rem = divmod(rem, 60000)
+    s, x = divmod(rem, 1000)
+    return f"{h:02d}{mi:02d}{s:02d}.{x:03d}" + fmt_offset(offset_minutes, name)
+
+
+def write_value(typ, v):
+    """python value -> wire text (escaped) for a child of converter type `typ`"""
+    import datetime as _dt
+
+    if typ == "Bool":
+        return "Y" if v else "N"
+    if typ == "Integer":
+        return str(int(v))
+    if typ == "Decimal":
+        s, val, e = pydecimal_triple(v)
+        digs = str(val)
+        if e < 0:
+            digs = digs.rjust(-e + 1, "0")
+            txt = digs[:e] + "." + digs[e:]
+        else:
+            txt = digs + "0" * e
+        return ("-" if s else "") + txt
+    if typ in ("String", "NagString", "OneOf"):
+        return escape(str(v))
+    if typ == "DateTime":
+        off = v.utcoffset()
+        offm = (off.days * 86400 + off.seconds) // 60
+        return write_datetime_us(pydt_to_us(v), offm)
+    if typ == "Time":
+        off = v.utcoffset()
+        offm = (off.days * 86400 + off.seconds) // 60
+        return write_time_us(pytime_to_us(v), offm)
+    raise ValueError(typ)
+
+
+def read_value(typ, params, text):
+    """wire text -> comparable key (same shape as ref_schema.norm_value) per the OFX type rules"""
+    if typ == "Bool":
+        return ("bool", read_bool(text))
+    if typ == "Integer":
+        return ("int", read_int(text))
+    if typ == "Decimal":
+        t = read_decimal(text)
+        if params is not None:
+            t = quantize_triple(t, params)
+        return ("dec",) + tuple(t)
+    if typ in ("String", "NagString"):
+        return ("str", unescape(text))
+    if typ == "OneOf":
+        return ("str", text) if isinstance(text, str) else ("other", text)
+    if typ == "DateTime":
+        return ("dt", read_datetime(text))
+    if typ == "Time":
+        return ("tm", read_time(text))
+    raise ValueError(typ)
